@@ -103,7 +103,7 @@ func c20Run(c c20Case) Verdict {
 					for _, w := range wires {
 						w.Abort()
 					}
-					r.Srv.Close()
+					r.ForceClose()
 					if len(stacks) > 0 && !r.B.AtGateLocked() {
 						return failf("deadlock", "after step %+v the server makes no progress (not reading, not closed, no gate held):\n%s", s, strings.Join(stacks, "\n\n"))
 					}
